@@ -3,6 +3,7 @@ import ChythonModel.Proofs.C14Hydrogens
 import ChythonModel.Proofs.C14Implicify
 import ChythonModel.Proofs.C14Lazy
 import ChythonModel.Proofs.C14Inverse
+import ChythonModel.Proofs.C14Valid
 /-!
 # C14 — normalisation conserves composition, is idempotent and numbering independent
 
@@ -35,6 +36,13 @@ example : ∃ r ∈ singleRules, patternValid r.toPattern = true ∧ r.atomFix.l
 
 /-- the restriction is needed: without it the statement is false of today's tables -/
 example : ¬ ∀ r ∈ allStdRules, chargeSum r = 0 := by decide +kernel
+
+/-- Why the charge-changing rules are harmless: each of them is invalid either because of a single-element pattern atom pinned
+    to `d` single bonds for which no compiled valence rule is satisfiable (PR4, BR4, NR4, PF6: covered by
+    `invalid_single_atom_pattern_matches_only_valence_errors`) or because of an atom whose multiple bonds are drawn in the
+    pattern (the pentavalent azide nitrogen; soundness of that case is validated on the real code, not proved). -/
+theorem charge_changing_rules_are_invalid_for_a_reason :
+    ∀ r ∈ allStdRules, chargeSum r ≠ 0 → hasBadSingleAtom r = true ∨ invalidByKnownEnv r = true := by decide +kernel
 
 /-- In every rule only the *first* `atom_fix` entry can trip the `charge > 4` abort on a matched atom: every later entry
     names a pattern atom that tests the charge (not `M`) and whose pattern charge plus delta is ≤ 4. So when the loop breaks,
@@ -161,6 +169,22 @@ def RulesConserveHydrogens : Prop :=
   ∀ r ∈ allStdRules, ∀ (ri : Nat) (m : Mol) (sssr comps : List (List Nat)) (L : Labels) (st : RState) (m' : Mol),
     m.ids.Nodup → Valence.fixStructure m = some m → Valence.checkValence m = [] → calcLabels m sssr = some L →
     runRule r ri m L comps = some st → recalc st.hs st.mol = some m' → hydrogens m' = hydrogens m
+
+/-- **An invalid all-single pattern atom matches only valence errors** (the link between `rules_charge_neutral_on_valid` and
+    real molecules, for the all-single case). If a non-metal query atom with `D = d`, `z = 1` for which no compiled valence rule
+    of element `a.z` is satisfiable (`badFor`) compares equal (`Query.pyEq`, C08) to atom `x` of a molecule with fresh labels
+    (`Query.mAtomOf` = `calc_labels`) and legal bond orders, then `calc_implicit` (C04) gives `x` no hydrogen count: a rule
+    with such an atom cannot fire on a molecule without valence errors. -/
+theorem invalid_single_atom_pattern_matches_only_valence_errors (m : Mol) (sssr : List (List Nat)) (x : Nat) (a : Atom)
+    (q : Query.QAtom) (d : Nat) (ha : m.atom? x = some a) (hz : a.z ≠ 1) (hq : q.neighbors = [d]) (hy : q.hybridization = [1])
+    (hkind : q.kind ≠ .metal) (hord : ∀ row, m.adj.lookup x = some row → ∀ kb ∈ row, kb.2.order ∈ [1, 2, 3, 4, 8])
+    (ma : Query.MAtom) (hma : Query.mAtomOf m sssr x = some ma) (heq : Query.pyEq q ma = true)
+    (hbad : badFor a.z q d = true) : ∀ h, Valence.calcImplicitMol m x ≠ some (some h) :=
+  invalid_pinned_atom_is_valence_error m sssr x a q d ha hz hq hy hkind hord ma hma heq hbad
+
+/-- the hypotheses are met by the drawing the PR4 rule is written for: the phosphorus of `CP(C)(C)C` -/
+example : ∃ q ∈ (singleRules.headD default).atoms, q.2.neighbors = [4] ∧ q.2.hybridization = [1] ∧ badFor 15 q.2 4 = true := by
+  decide +kernel
 
 /-! ## the matcher inside the loop -/
 
